@@ -143,7 +143,11 @@ def main(argv=None):
             if mo.startswith('unknown-op') or mo.startswith('driver-failure') or io.startswith('unknown-op'):
                 print('INFRA-ERROR: case %s %s -> impl %r model %r' % (c.id, c.line, io, mo))
                 sys.exit(2)
-            if io != mo:
+            if hasattr(mod, 'normalise_outcome'):
+                io_n, mo_n = mod.normalise_outcome(c, io), mod.normalise_outcome(c, mo)
+            else:
+                io_n, mo_n = io, mo
+            if io_n != mo_n:
                 cls = mod.classify(ctx, c, io, mo) if hasattr(mod, 'classify') else None
                 if cls and cls in ctx.open_classes:
                     ctx.known_hits[cls] = ctx.known_hits.get(cls, 0) + 1
@@ -169,6 +173,16 @@ def main(argv=None):
             known_lines.append('KNOWN-FINDING: property=%s %s [%s]' % (pid, k['what_fails'], k['key']))
         else:
             known_lines.append('NOTE: known finding %s no longer reproduces on this tree' % k['key'])
+
+    # 6b. witnesses of fixed findings run with the corpus: a failure is a violation like any other
+    for k in known:
+        if k['status'] != 'fixed':
+            continue
+        for w in k.get('witness', []):
+            o = core.run_one(core.HARNESS_BIN, 'w ' + w['case'])
+            evals_extra = 1
+            if not re.fullmatch(w['property_requires'], o):
+                ctx.violate('a repaired defect is back: ' + k['what_fails'], case=w['case'], expected=w['property_requires'], observed=o, finding=k['key'])
 
     # 7. verdict
     nviol = len(ctx.violations)
